@@ -19,9 +19,12 @@ pub fn params_strategy() -> BoxedStrategy<Params> {
 
 /// event strategy: weights present : absent : err1 : err2
 pub fn ev_strategy(w: [u32; 4], dt: BoxedStrategy<i64>) -> BoxedStrategy<Ev> {
+    ev_strategy_with(w, dt, gen::moderate())
+}
+pub fn ev_strategy_with(w: [u32; 4], dt: BoxedStrategy<i64>, value: BoxedStrategy<f32>) -> BoxedStrategy<Ev> {
     let mut opts: Vec<(u32, BoxedStrategy<Ev>)> = Vec::new();
     if w[0] > 0 {
-        opts.push((w[0], (gen::moderate(), dt).prop_map(|(v, dt)| Ev::P(v, dt)).boxed()));
+        opts.push((w[0], (value, dt).prop_map(|(v, dt)| Ev::P(v, dt)).boxed()));
     }
     if w[1] > 0 {
         opts.push((w[1], Just(Ev::A).boxed()));
